@@ -407,6 +407,11 @@ def run(tier, seed):
     plan = [
         (corner("real", prefix=A.GLD, name="real-limits", **LIM), alpha, 2 if tier == "quick" else 3),
         (corner("awk", prefix=A.GL, name="awk-limits", **LIM), A.timing(), 3 if tier == "quick" else 4),
+        # two detuning maps on ONE DMM id (reusable device): each channel is judged with its own map (largest weight 0.75 vs 1.0)
+        (corner("real", prefix=[("declare", "g", "rydberg_global"), ("config_dmm", "m2", "dmm_0"), ("config_dmm", "m1", "dmm_0")],
+                name="real-two-maps-on-one-dmm-id", **LIM),
+         [("add_dmm", ["C", 52, d], ch, pr) for d in (-9.0, -10.0, -11.0, -13.0, -13.4, -15.0, -16.0) for ch in ("dmm_0", "dmm_0_1")
+          for pr in ("no-delay",)] + [("add", A.C52, "g"), ("add_dmm", ["R", 60, -13.0, 0.0], "dmm_0_1", "min-delay"), ("delay", 16, "dmm_0_1")], 2),
     ]
     cov = seqx.run_plan(res, plan, MONITORS)
     nolim = {k: v for k, v in LIM.items() if k != "max_seq"}
